@@ -243,19 +243,15 @@ func c19SpecParse(sel string) (string, []c19Clause) {
 	return key, cs
 }
 
-// c19ClauseSat: the property's reading.  namesToo = the reading of the code as it stands
-// (known finding K19A: the unnamed clause also tests the qualifier names).
-func c19ClauseSat(c c19Clause, f gts.Feature, namesToo bool) bool {
+// c19ClauseSat: the property's reading — an unnamed clause looks at values only (a match on a
+// qualifier *name* is the repaired defect F8 and would be a violation).
+func c19ClauseSat(c c19Clause, f gts.Feature) bool {
 	for _, row := range f.Props {
 		if len(row) == 0 {
 			continue
 		}
 		if c.name == "" {
-			vals := row[1:]
-			if namesToo {
-				vals = row
-			}
-			for _, v := range vals {
+			for _, v := range row[1:] {
 				if c19LitMatch(c.rx, v) {
 					return true
 				}
@@ -272,7 +268,7 @@ func c19ClauseSat(c c19Clause, f gts.Feature, namesToo bool) bool {
 }
 
 // c19SpecSelector: (accepts, error).
-func c19SpecSelector(sel string, f gts.Feature, namesToo bool) (bool, bool) {
+func c19SpecSelector(sel string, f gts.Feature) (bool, bool) {
 	key, cs := c19SpecParse(sel)
 	for _, c := range cs {
 		if !c19LitValid(c.rx) {
@@ -283,7 +279,7 @@ func c19SpecSelector(sel string, f gts.Feature, namesToo bool) (bool, bool) {
 		return false, false
 	}
 	for _, c := range cs {
-		if !c19ClauseSat(c, f, namesToo) {
+		if !c19ClauseSat(c, f) {
 			return false, false
 		}
 	}
@@ -412,45 +408,39 @@ func (e c19Expr) spec(f gts.Feature) (val bool, err bool) {
 	case "rev":
 		return c19SpecStrand(f.Loc) == 2, false
 	case "sel":
-		return c19SpecSelector(e.s, f, false)
+		return c19SpecSelector(e.s, f)
 	case "qual":
 		if !c19LitValid(e.s2) {
 			return false, true
 		}
-		return c19ClauseSat(c19Clause{e.s, e.s2}, f, false), false
+		return c19ClauseSat(c19Clause{e.s, e.s2}, f), false
 	}
 	panic("spec op")
 }
 
-// specCode: the same, but with the known deviations of the code switched on — namesToo:
-// K19A (an unnamed clause also tests the qualifier names), emptyOr: K19B (`Or()` is true).
-// Used only to attribute an oracle failure to a known finding.
-func (e c19Expr) specCode(f gts.Feature, namesToo, emptyOr bool) bool {
+// specCode: the same, but with the known deviation K19B of the code (`Or()` is true).
+// Used only to attribute an oracle failure to that known finding.
+func (e c19Expr) specCode(f gts.Feature) bool {
 	switch e.op {
 	case "and":
 		for _, k := range e.kids {
-			if !k.specCode(f, namesToo, emptyOr) {
+			if !k.specCode(f) {
 				return false
 			}
 		}
 		return true
 	case "or":
 		if len(e.kids) == 0 {
-			return emptyOr
+			return true
 		}
 		for _, k := range e.kids {
-			if k.specCode(f, namesToo, emptyOr) {
+			if k.specCode(f) {
 				return true
 			}
 		}
 		return false
 	case "not":
-		return !e.kids[0].specCode(f, namesToo, emptyOr)
-	case "sel":
-		v, _ := c19SpecSelector(e.s, f, namesToo)
-		return v
-	case "qual":
-		return c19ClauseSat(c19Clause{e.s, e.s2}, f, namesToo)
+		return !e.kids[0].specCode(f)
 	}
 	v, _ := e.spec(f)
 	return v
@@ -626,7 +616,7 @@ func c19Select(r *Run, sel string, f gts.Feature) {
 		r.eval("sel|"+line, false)
 		return
 	}
-	want, werr := c19SpecSelector(sel, f, false)
+	want, werr := c19SpecSelector(sel, f)
 	_, cs := c19SpecParse(sel)
 	r.count(fmt.Sprintf("selector/clauses%d", len(cs)))
 	r.eval("sel|"+line, len(cs) > 0 || sel != "")
@@ -638,11 +628,7 @@ func c19Select(r *Run, sel string, f gts.Feature) {
 	if out == ws {
 		return
 	}
-	fl := Failure{Oracle: "selector accepts iff key equal (when given) and every clause satisfied", Op: line, Got: out, Want: ws}
-	if codeWant, _ := c19SpecSelector(sel, f, true); !werr && b01(codeWant) == out {
-		fl.Finding = "K19A"
-	}
-	r.fail(fl)
+	r.fail(Failure{Oracle: "selector accepts iff key equal (when given) and every clause satisfied", Op: line, Got: out, Want: ws})
 }
 
 // c19Filter: an expression on a table — FeatureSlice.Filter returns exactly the accepted
@@ -699,13 +685,8 @@ func c19Filter(r *Run, e c19Expr, ff []gts.Feature) {
 			el := "feat.eval " + e.enc() + " " + encFeature(f)
 			r.op(el)
 			fl := Failure{Oracle: "And/Or/Not/Within/Overlap/strand/selector filters combine as boolean algebra", Op: el, Got: b01(g), Want: b01(w)}
-			switch {
-			case e.specCode(f, true, false) == g:
-				fl.Finding = "K19A"
-			case e.specCode(f, false, true) == g:
+			if e.specCode(f) == g {
 				fl.Finding = "K19B"
-			case e.specCode(f, true, true) == g:
-				fl.Finding = "K19A" // both deviations are needed to explain it
 			}
 			r.fail(fl)
 		}
